@@ -407,13 +407,16 @@ namespace ST
 
         void allocate(size_t size)
         {
+            // Get the new storage first, so a failed allocation leaves us untouched
+            char_T *chars = (size >= local_length) ? new char_T[size + 1] : nullptr;
+
             if (is_reffed())
                 delete[] m_chars;
             else
                 traits_t::assign(m_data, local_length, 0);
 
             m_size = size;
-            m_chars = is_reffed() ? new char_T[m_size + 1] : m_data;
+            m_chars = chars ? chars : m_data;
             m_chars[m_size] = 0;
         }
 
